@@ -974,8 +974,8 @@ func (b *brun) finishFaulty() {
 		}
 	}
 	for _, a := range b.allApps {
-		if a.shutdown > 1 {
-			s.Fail("shutdown_twice", "rpc.go:(*Conn).shutdown", fmt.Sprintf("application capability %v was released %d times", a, a.shutdown))
+		if a.shutdown != 1 {
+			s.Fail("shutdown_count", "rpc.go:(*Conn).shutdown", fmt.Sprintf("after the fault and Close of both connections, application capability %v has been released %d times (want exactly 1)", a, a.shutdown))
 			return
 		}
 	}
